@@ -48,6 +48,15 @@ def f(x, sel):
         z = eff("use", w) if sel == 1 else z + 1
     return z
 ''',
+    "decl_caught": '''
+def f(x, sel):
+    try:
+        y: int
+        z = y
+    except NameError:
+        z = x + sel
+    return z
+''',
     "undef": '''
 def f(x, sel):
     if sel == 1:
@@ -76,7 +85,7 @@ def f(x, sel):
 }
 
 # template -> (declared-only vars, undefined globals, an ordinary variable)
-SHAPE = {"decl": (["y"], [], "z"), "decl_late": (["w"], [], "z"), "undef": ([], ["UNDEF"], "z"),
+SHAPE = {"decl": (["y"], [], "z"), "decl_caught": (["y"], [], "z"), "decl_late": (["w"], [], "z"), "undef": ([], ["UNDEF"], "z"),
          "undef_pass": ([], ["UNDEF"], "z"), "both": (["y"], ["UNDEF"], "z")}
 
 
@@ -100,6 +109,8 @@ def reference(tname, x, sel, supplied):
         if "y" not in S:
             return ("nameerror", "y")
         return ("ok", S["y"] + x if sel == 1 else x, effs)
+    if tname == "decl_caught":
+        return ("ok", S["y"] if "y" in S else x + sel, effs)
     if tname == "decl_late":
         z = x
         if sel >= 1:
@@ -178,6 +189,14 @@ def build(case):
             elif inst == "generic":
                 pr = enter(probing("f > $v", env=ns, raw=True))
                 pr.subscribe(lambda d: events.append({d["v"].names[0]: d["v"].values[0]}))
+            elif inst == "ctx":  # the special variables are context captures of a probe focused on an ordinary variable
+                names = [k for k in declared + undefined]
+                pr = enter(probing(f"f({', '.join(names)}) > {other}", env=ns))
+                pr.subscribe(lambda d: events.append(dict(d)))
+            elif inst == "total":  # focus-free probe: one record per call, emitted at exit (also on exceptions)
+                names = [k for k in declared + undefined]
+                pr = enter(probing(f"f({', '.join(names + ['x'])})", env=ns, raw=True))
+                pr.subscribe(lambda d: events.append({k: list(c.values) for k, c in d.items()}))
             # inst == "named": only through the supplying / observing probes below
             # ---- suppliers
             for k in supply:
@@ -254,11 +273,11 @@ def cases(tier, seed):
     for tname, (declared, undefined, other) in SHAPE.items():
         special = declared + undefined
         subsets = [[]] + [[k] for k in special] + ([special] if len(special) > 1 else [])
-        for inst in ("all", "named", "other", "generic"):
+        for inst in ("all", "named", "other", "generic", "ctx", "total"):
             for supply in subsets:
                 hows = ["tweak", "override"] if supply else ["-"]
                 for how in hows:
-                    if inst in ("other", "generic") and how == "tweak":
+                    if inst in ("other", "generic", "ctx", "total") and how == "tweak":
                         continue  # tweaking tools everything; covered by inst=all
                     cs.append({"id": f"{tname}:inst={inst}:supply={'+'.join(supply) or 'none'}:{how}",
                                "params": {"template": tname, "inst": inst, "supply": supply, "how": how},
